@@ -1160,13 +1160,21 @@ impl<'a> Explorer<'a> {
                     Some(g) if g.rule == f.rule && g.op == f.op => f,
                     other => Fail { prop: f.prop, rule: "UNSTABLE", op: f.op.clone(), msg: format!("did not reproduce identically: first {:?}, replay {:?}", f, other) },
                 };
-                let fp = fingerprint(self.cfg, &f);
-                if let Some(old) = self.fails.iter_mut().find(|(o, _)| fingerprint(self.cfg, o) == fp) {
-                    if hist.len() < old.1.len() {
-                        *old = (f, hist.clone());
+                // an expired entry handed out by an enumeration API breaks C12 ("no read API returns an expired entry") and
+                // C17 ("enumerations omit expired entries") alike: report it under both
+                let mut all = vec![f.clone()];
+                if f.prop == "C12" && f.rule == "expired_entry_served" && matches!(f.op.as_str(), "iter" | "iter_snapshot" | "to_snapshot" | "stream" | "snapshot_stream") {
+                    all.push(Fail { prop: "C17", rule: "expired_entry_enumerated", op: f.op.clone(), msg: f.msg.clone() });
+                }
+                for f in all {
+                    let fp = fingerprint(self.cfg, &f);
+                    if let Some(old) = self.fails.iter_mut().find(|(o, _)| fingerprint(self.cfg, o) == fp) {
+                        if hist.len() < old.1.len() {
+                            *old = (f, hist.clone());
+                        }
+                    } else {
+                        self.fails.push((f, hist.clone()));
                     }
-                } else {
-                    self.fails.push((f, hist.clone()));
                 }
                 return;
             }
